@@ -1,3 +1,39 @@
-From TM Require Import Base Frame.
-Theorem C07_placeholder : fc_value (fc_new 1) = 1.
-Proof. reflexivity. Qed.
+(* C07 -- the server answers every request once, in order, under the request's own header.
+   [served] (proofs/ServerProofs.v) is the loop body over the LIST of decoded requests: per request one
+   service invocation, then at most one send of the reply framed under that request's own header,
+   completed before the next request is looked at.  The theorem says the loop over the BYTE STREAM,
+   under every chunking and every write/flush behaviour, does exactly that. *)
+From TM Require Import Base Frame Pdu RtuCodec TcpCodec Framed Client Server FramedProofs ServerProofs EndToEnd.
+
+Theorem C07_stream_is_served_request_by_request : forall p m fs is cs b rd tl svc w fuel,
+  Forall2 (server_valid p) fs is -> Forall nonempty cs ->
+  b ++ concat cs = concat fs -> (rd = false -> b = []) ->
+  process (length fs + fuel) p m (mkR b false rd false) w (datas cs ++ tl) svc =
+  served p m is svc w (fun svc' w' =>
+    process fuel p m (mkR [] false (match fs with [] => rd | _ => true end) false) w' tl svc').
+Proof. exact process_serves. Qed.
+
+(* on a transport that accepts everything: the trace is, per request in arrival order, the invocation
+   followed by exactly one Wrote of the reply frame (nothing when the service declines; the request's
+   function code with the high bit set plus the service's exception code when it fails) *)
+Theorem C07_trace : forall p m fin is svc w,
+  w_default w ->
+  (forall h req rr f, In (h, req) is -> server_enc p m h rr = Val f -> f <> []) ->
+  served p m is svc w (fun _ _ => fin) = trace_default p m is svc fin.
+Proof. exact served_default. Qed.
+
+(* the reply frames are the spec frames under the request's header *)
+Theorem C07_reply_frame_tcp : forall m tid uid r, rsp_ok r = true -> rsp_size r <= 253 -> tid < 65536 ->
+  tcp_server_enc m (tid, uid) (RROk r) = Val (TcpProofs.tcp_frame tid uid (Spec.spec_rsp_pdu r)).
+Proof. exact server_frame_tcp. Qed.
+Theorem C07_reply_frame_rtu : forall m tid uid r, rsp_ok r = true -> rsp_size r <= 253 ->
+  rtu_server_enc m (tid, uid) (RROk r) = Val (rtu_frame uid (Spec.spec_rsp_pdu r)).
+Proof. exact server_frame_rtu. Qed.
+Theorem C07_exception_frame_tcp : forall m tid uid f e, fc_value f < 0x80 -> tid < 65536 ->
+  tcp_server_enc m (tid, uid) (RRExc {| exr_function := f; exr_exception := e |})
+  = Val (TcpProofs.tcp_frame tid uid (Spec.spec_exc_pdu (fc_value f) (ex_value e))).
+Proof. exact server_exception_frame_tcp. Qed.
+Theorem C07_exception_frame_rtu : forall m tid uid f e, fc_value f < 0x80 ->
+  rtu_server_enc m (tid, uid) (RRExc {| exr_function := f; exr_exception := e |})
+  = Val (rtu_frame uid (Spec.spec_exc_pdu (fc_value f) (ex_value e))).
+Proof. exact server_exception_frame_rtu. Qed.
